@@ -2,7 +2,7 @@
 import ast
 from vstatic import terms as T
 from vstatic.terms import sym, Term, Atom, lift, pretty, TRUE, FALSE, NONE
-from .common import B, agree_ref, selfattr, RECORD_NO_INLINE, dominates, component_resets, resets_all_pairs
+from .common import B, agree_ref, selfattr, RECORD_NO_INLINE, dominates, component_resets, resets_all_pairs, fresh_request_buffer
 from .refs_backend import REF_COLLECT, REF_READ_NEXT_BLOCK
 
 NI = (B + '._read_next_block',)
@@ -189,6 +189,9 @@ def run(ctx):
     from .c15 import REF_GET, MA
     agree_ref(ctx, ctx.func(MA + 'get_samples'), REF_GET, 'array source: successive requests deliver contiguous, correctly delayed samples',
               what=('return', 'attrstores', 'calls', 'substores'), max_depth=0, expand=False)
+    # the cached background tails (and the samples handed to the backend) are views of a stream's buffer: they stay valid
+    # across requests only if every request gets a new buffer
+    fresh_request_buffer(ctx)
     # ---- D8 the backend owns an independent digitiser / filterbank / requantiser per (antenna, polarisation)
     ctx.clause = 'D8'
     from .refs_backend import REF_BACKEND_INIT
